@@ -59,6 +59,11 @@ def observe(ra_mod, a, exp, dt=None):
     chk("min", lambda: int(a.min()) == min(flat))
     chk("size", lambda: int(a.size) == len(flat))
     chk("shape", lambda: a.shape[0] == len(exp) and (a.shape[1] == lens[0] if len(set(lens)) == 1 else a.shape[1] is None))
+    def scribbled():
+        f = a.flatten()
+        f[...] = -77
+        return _rows(a) == exp
+    chk("flatten-is-a-copy", scribbled)
     if dt is not None:
         chk("flatten-dtype", lambda: a.flatten().dtype == dt)
         chk("row-dtype", lambda: all(np.asarray(a[i]).dtype == dt for i in range(len(exp))))
